@@ -229,7 +229,7 @@ TRACE_MODULE["C19"] = "Trace_C19"
 @prop("C19")
 def c19(ck):
     binary = vlib.build_harness()
-    maxtok = 5 if ck.tier == "thorough" else 4
+    maxtok = 6 if ck.tier == "thorough" else 4
     def flipacc(e):
         k = next(i for i, a in enumerate(e["acc"]) if a == 1) if 1 in e["acc"] else 0
         e["acc"][k] = 0 if e["acc"][k] == 1 else 1
@@ -298,7 +298,7 @@ def c17(ck):
         e["outcome"] = "ok"
     events = stateless_check(
         ck, binary, "c17", "Trace_C17",
-        ["--maxlen", 7 if thorough else 6, "--capstok", 4 if thorough else 3, "--meta", 3000 if thorough else 300],
+        ["--maxlen", 8 if thorough else 6, "--capstok", 4 if thorough else 3, "--meta", 5000 if thorough else 300],
         [("Dest", to_panic), ("Dest", must_err_ok), ("Level", to_panic), ("CapsArg", to_panic)],
         lambda e, r: (f"Dest:{s_(e['dest'])}" if e["event"] == "Dest" else
                       f"Level:{e['kind']}:{e['level']}" if e["event"] == "Level" else
@@ -309,7 +309,7 @@ def c17(ck):
                          for e in events if e["outcome"] == "err"})
     ck.extra["outcomes"] = {f"{k}:{o}": sum(1 for e in events if e["event"] == k and e["outcome"] == o)
                             for k in ("Dest", "CapsArg", "Level", "Meta") for o in ("ok", "err")}
-    ck.rule = ("all destination strings over {/ . a b} up to length 6 (7 thorough) plus longer hostile ones; all "
+    ck.rule = ("all destination strings over {/ . a b} up to length 6 (8 thorough) plus longer hostile ones; all "
                "capability texts of <= 3 (4) tokens through FileOptions::caps + build; every compression type with "
                "levels across and beyond its range (one child process per case); seeded metadata strings; "
                "non-trivial = distinct arguments that must be / were rejected with an error")
